@@ -4,6 +4,6 @@ CONSTANTS
   MaxSend = 1
   MaxExports = 1
   DupHeads = "skip"
-  KeyCheck = "pair"
+  KeyCheck = "none"
 INVARIANTS ExportComplete SameRestore Rejected NoCrash NeverSilentlyDifferent
 CHECK_DEADLOCK FALSE
